@@ -43,6 +43,11 @@ pub trait Prop: Sync + Send {
     fn max_threads(&self) -> usize {
         16
     }
+    /// Reduced, single-threaded, in-memory workload for the sanitizer legs
+    /// (Miri interprets ~1000x slower; no child processes, no real sockets).
+    fn sanitizer_cases(&self, _seed: u64) -> Vec<Value> {
+        vec![]
+    }
 }
 
 thread_local! {
@@ -284,6 +289,35 @@ fn cmd_replay(args: &[String]) -> i32 {
     0
 }
 
+/// `zmqmon sanitize <ID> [--seed N]`: run the property's reduced workload on
+/// this thread only and print one `SANITIZE-RESULT {json}` line. Used under
+/// Miri and in the ASan/LSan build, whose own reports are the extra oracle
+/// (UB, data races, leaks at exit); the ordinary monitors stay active too.
+fn cmd_sanitize(args: &[String]) -> i32 {
+    let id = args.first().cloned().unwrap_or_default();
+    let seed: u64 = arg_value(args, "--seed").and_then(|s| s.parse().ok()).unwrap_or(0);
+    let prop = match props::find(&id) {
+        Some(p) => p,
+        None => return 2,
+    };
+    let cases = prop.sanitizer_cases(seed);
+    let mut ctx = Ctx::new(Tier::Quick, seed);
+    for c in &cases {
+        run_case_guarded(prop.as_ref(), c, &mut ctx);
+    }
+    let v = ctx.to_json();
+    println!(
+        "SANITIZE-RESULT {}",
+        json!({"property": id, "cases": cases.len(), "evaluations": v["evaluations"], "violations": v["violations"],
+               "inconclusive": v["inconclusive"], "counters": v["counters"]})
+    );
+    // everything the run created must be gone before the leak checker looks
+    drop(ctx);
+    drop(cases);
+    drop(prop);
+    0
+}
+
 fn main() {
     install_panic_hook();
     let args: Vec<String> = std::env::args().skip(1).collect();
@@ -291,6 +325,7 @@ fn main() {
         Some("run") => cmd_run(&args[1..]),
         Some("replay") => cmd_replay(&args[1..]),
         Some("child") => props::child_main(&args[1..]),
+        Some("sanitize") => cmd_sanitize(&args[1..]),
         Some("list") => {
             for p in props::all() {
                 println!("{}", p.id());
